@@ -24,8 +24,8 @@ import (
 
 func TestSim(t *testing.T) {
 	hysim.Main(t,
-		&hysim.Harness{Name: "c07", Gen: genC07, Exec: execC07},
-		&hysim.Harness{Name: "c08", Gen: genC08, Exec: execC07},
+		&hysim.Harness{Name: "c07", Gen: genC07, Exec: execC07, LeakIsViolation: true},
+		&hysim.Harness{Name: "c08", Gen: genC08, Exec: execC07, LeakIsViolation: true},
 	)
 }
 
